@@ -28,4 +28,26 @@ def setSlice (m : List Bool) (i j : Int) : List Bool :=
 def burstMask (len : Nat) (off : Int) (bursts : List (Int × Int)) : List Bool :=
   bursts.foldl (fun m (c : Int × Int) => setSlice m (c.1 - off) (c.2 + Slots.burstMaskEndPlus - off)) (List.replicate len false)
 
+/-- one cycle as the parameter panel reads it: its side extrema, its centre extremum (original sample indices) and the parameter's value (`none` = NaN). -/
+structure PanelCycle where
+  last : Int
+  centre : Int
+  next : Int
+  value : Option Rat
+  deriving Repr, DecidableEq
+
+/-- the cycles `plot_burst_detect_param` draws for a view that starts at original sample `lo` and has `len` samples (`stopIncl` = the largest sample with
+`s / fs <= stop`): what `limit_df` keeps (entirely inside the closed window) and, after re-indexing, `0 <= last'` and `next' < len(times)` (the view's samples are
+`start <= t < stop`: a cycle ending exactly on `stop` is not drawn). -/
+def panelCycles (lo : Int) (len : Nat) (stopIncl : Int) (cycles : List PanelCycle) : List PanelCycle :=
+  cycles.filter fun c => decide (lo ≤ c.last) && decide (c.next ≤ stopIncl) && decide (0 ≤ c.last - lo) && decide (c.next - lo < len)
+
+/-- the marker line of the panel in original samples: `interp` - one point per cycle at its CENTRE; otherwise a step from side to side. -/
+def panelPoints (interp : Bool) (cs : List PanelCycle) : List (Int × Option Rat) :=
+  if interp then cs.map fun c => (c.centre, c.value) else cs.flatMap fun c => [(c.last, c.value), (c.next, c.value)]
+
+/-- the shaded spans: cycles whose value is at or below the threshold (NaN compares false). -/
+def panelSpans (thresh : Rat) (cs : List PanelCycle) : List (Int × Int) :=
+  (cs.filter fun c => match c.value with | some v => decide (v ≤ thresh) | none => false).map fun c => (c.last, c.next)
+
 end Bycycle
